@@ -21,6 +21,12 @@ import (
 
 var cdZoneOnce sync.Once
 
+// cdSetZone: the sandbox runs in UTC; make time.Local differ from UTC so that a
+// server-time parsed in the wrong location gives a different instant.
+func cdSetZone() {
+	cdZoneOnce.Do(func() { time.Local = time.FixedZone("VERIF+0530", 5*3600+1800) })
+}
+
 type cdTag struct {
 	key    string
 	hasVal bool
@@ -554,11 +560,7 @@ func init() {
 			return cdGenAst(r, odd).toCase()
 		},
 		Run: func(c Case) Result {
-			cdZoneOnce.Do(func() {
-				// the sandbox runs in UTC: make time.Local differ from UTC so that a
-				// server-time parsed in the wrong location gives a different instant
-				time.Local = time.FixedZone("VERIF+0530", 5*3600+1800)
-			})
+			cdSetZone()
 			a := cdDecodeAst(c)
 			line := a.render()
 			ref := cdRefMeaning(a)
